@@ -117,6 +117,22 @@ impl MemoryAreas {
     self.cart_state.get_rom_bank() % bank_count
   }
 
+  /// Index into the cartridge RAM buffer for a bus address in 0xa000-0xbfff.
+  /// The bank register is reduced to the banks that are present; an access
+  /// beyond the end of the RAM the cartridge actually has (no RAM at all, or
+  /// a 2 KiB part) hits nothing.
+  fn cart_ram_index(&self, addr: u16) -> Option<usize> {
+    let len = self.cart_ram.len();
+    let bank_count = (len / 0x2000).max(1);
+    let offset = addr as usize & 0x1fff;
+    let index = 0x2000 * (self.cart_state.get_ram_bank() % bank_count) + offset;
+    if index < len {
+      Some(index)
+    } else {
+      None
+    }
+  }
+
   pub fn run_clock_cycles(&mut self, cycles: ClockCycles) {
     // If a DMA is currently active, it updates with the rest of the memory bus
     // One byte is copied on each machine cycle. This will copy at most that
@@ -212,8 +228,10 @@ pub extern "sysv64" fn memory_read_byte(areas: *const MemoryAreas, addr: u16) ->
     return memory_areas.video_ram[offset];
   }
   if addr < 0xc000 { // Cart RAM
-    let offset = addr as usize & 0x1fff;
-    return memory_areas.cart_ram[0x2000 * memory_areas.cart_state.get_ram_bank() + offset];
+    return match memory_areas.cart_ram_index(addr) {
+      Some(index) => memory_areas.cart_ram[index],
+      None => 0xff,
+    };
   }
   if addr < 0xd000 { // Work RAM Bank 0
     let offset = addr as usize & 0xfff;
@@ -260,8 +278,9 @@ pub extern "sysv64" fn memory_write_byte(areas: *mut MemoryAreas, addr: u16, val
     return;
   }
   if addr < 0xc000 { // Cart RAM
-    let offset = addr as usize & 0x1fff;
-    memory_areas.cart_ram[0x2000 * memory_areas.cart_state.get_ram_bank() + offset] = value;
+    if let Some(index) = memory_areas.cart_ram_index(addr) {
+      memory_areas.cart_ram[index] = value;
+    }
     return;
   }
   if addr < 0xd000 { // Work RAM Bank 0
